@@ -100,6 +100,8 @@ class Shapes:
                 sh = self.shape(t[3][0], want=False)
                 if sh:
                     return dmul(sh[0], sh[1])
+        if tag == "field" and t[2] in ("0", "1") and t[1][0] == "call" and t[1][1].rsplit("::", 1)[-1] == "shape" and t[1][3]:
+            return self.shape(t[1][3][0])[int(t[2])]
         if tag == "bin":
             if t[1] in ("Mul", "MulUnchecked"):
                 return dmul(self.dim(t[2]), self.dim(t[3]))
@@ -308,7 +310,6 @@ def rule_shapes(F, ev, R, config, rule="R-SHAPES"):
     """conformance of every matrix operation on the problem / statistics code paths"""
     from rules_panic import nosite
     from rules_problem import resolve_cache_roles_by_use
-    from rules_problem2 import jacobian_closure_env
     from rules_stats2 import ctor_fields, args_by_type, find_model_jacobian, stats_roles
     pr = problem_roles(F)
     cuse = resolve_cache_roles_by_use(F, ev)
@@ -384,32 +385,23 @@ def rule_shapes(F, ev, R, config, rule="R-SHAPES"):
                 R.bad(rule, config, b.key, "cache-shapes@" + fl, str(e))
         jb = ms.get("jacobian")
         if jb is not None:
+            from rules_problem2 import jacobian_column_write
             ax = problem_axioms(jb.key)
-            closures, env = jacobian_closure_env(F, ev, jb)
-            terms = []
-            for cb, cenv, ct in closures:
-                for cid, head, args, t, body, bi in effect_calls(ev, cenv):
-                    if cid.rsplit("::", 1)[-1] == "copy_from" and len(args) == 2:
-                        # destination: column k of the Jacobian allocation
-                        alloc = None
-                        for jbi, jt in jb.calls():
-                            if "fn" in jt and jt["fn"]["name"] in ("column_iter_mut", "par_column_iter_mut"):
-                                alloc = ev.call_val(env, jbi)[3][0]
-                        if alloc is not None:
-                            shp = Shapes(F, ev, ax)
-                            try:
-                                sa = shp.shape(alloc)
-                                sv = shp.shape(args[1])
-                                shp.need_eq(sa[0], sv[0], "copy_from(column, value): rows", args[1])
-                                shp.need_eq(ONE, sv[1], "copy_from(column, value): one column", args[1])
-                                total += len(shp.checked)
-                                for what, a, b2, t2 in shp.errors:
-                                    R.bad(rule, config, cb.key, "jacobian-column@%s:%s" % (fl, what), "dimension mismatch (%s): %s ≠ %s" % (what, show_dim(a), show_dim(b2)))
-                                if not shp.errors:
-                                    R.ok(rule, config, cb.key, "jacobian-column@" + fl, "%d obligations: column of a (%s)×(%s) matrix ← vec of %s×%s" % (
-                                        len(shp.checked), show_dim(sa[0]), show_dim(sa[1]), show_dim(sv[0]), show_dim(sv[1])))
-                            except ShapeError as e:
-                                R.bad(rule, config, cb.key, "jacobian-column@%s:undetermined" % fl, str(e))
+            try:
+                alloc, k, val, e, effs = jacobian_column_write(F, ev, jb)
+                shp = Shapes(F, ev, ax)
+                sa = shp.shape(alloc)
+                sv = shp.shape(val)
+                shp.need_eq(sa[0], sv[0], "copy_from(column, value): rows", val)
+                shp.need_eq(ONE, sv[1], "copy_from(column, value): one column", val)
+                total += len(shp.checked)
+                for what, a_, b2, t2 in shp.errors:
+                    R.bad(rule, config, e.body.key, "jacobian-column@%s:%s" % (fl, what), "dimension mismatch (%s): %s ≠ %s" % (what, show_dim(a_), show_dim(b2)))
+                if not shp.errors:
+                    R.ok(rule, config, e.body.key, "jacobian-column@" + fl, "%d obligations: column of a (%s)×(%s) matrix ← vec of %s×%s" % (
+                        len(shp.checked), show_dim(sa[0]), show_dim(sa[1]), show_dim(sv[0]), show_dim(sv[1])))
+            except (ShapeError, AnchorMissing) as ex:
+                R.bad(rule, config, jb.key, "jacobian-column@%s:undetermined" % fl, str(ex))
     # ---- statistics ----
     try:
         b, env, f, s, sbi = ctor_fields(F, ev)
